@@ -513,6 +513,9 @@ func (a *BigInt) M__complex__() (Object, error) {
 }
 
 func (a *BigInt) M__round__(digits Object) (Object, error) {
+	if digits == None {
+		return a, nil
+	}
 	if b, ok := ConvertToBigInt(digits); ok {
 		if (*big.Int)(b).Sign() >= 0 {
 			return a, nil
@@ -528,14 +531,15 @@ func (a *BigInt) M__round__(digits Object) (Object, error) {
 		digits := new(big.Int).Mod(r, scale)
 		r.Sub(r, digits)
 		// Round
+		// Round half to even
 		digits.Lsh(digits, 1)
-		if digits.Cmp(scale) >= 0 {
+		if c := digits.Cmp(scale); c > 0 || (c == 0 && new(big.Int).Quo(r, scale).Bit(0) == 1) {
 			r.Add(r, scale)
 		}
 		if negative {
 			r.Neg(r)
 		}
-		return (*BigInt)(r), nil
+		return (*BigInt)(r).MaybeInt(), nil
 	}
 	return cantConvert(digits, "int")
 }
